@@ -130,3 +130,40 @@ func c17Rewrite(c *Ctx, pp string) {
 	want := "host_rewrite@0 auto_host_rewrite_header@1 auto_host_rewrite@2"
 	c.Check("C17.R8", funcKey(hf)+":host-rewrite-precedence", hf.Pos(), strings.Join(order, " ") == want, "host_rewrite, else auto_host_rewrite_header, else auto_host_rewrite", "host rewrite sources are not tried in the documented order (found "+strings.Join(order, " ")+")")
 }
+
+// c17FinalisedOnce (R9): the route's request actions are applied once per request, not once per attempt.
+// FinalizeRequestHeaders appends headers (append mode adds a second value), rewrites the path relative to what it
+// finds (a rewritten path is rewritten again) and records "the original path" from the current one. It is therefore
+// not idempotent: it must run once for a request, on the first attempt's way out, and never on the retry path, which
+// re-sends the same header map. Clause: no call of RouteRule.FinalizeRequestHeaders in pkg/proxy lies in a function
+// reachable from downStream.doRetry, nor inside a loop.
+func c17FinalisedOnce(c *Ctx, pp string) {
+	retry := c.M(pp, "downStream", "doRetry")
+	if retry == nil {
+		c.Unresolved("C17.R9", "downStream.doRetry")
+		return
+	}
+	reach := staticReach([]*ssa.Function{retry}, pp)
+	n := 0
+	ord := ordCounter{}
+	for _, fn := range c.PkgFuncs(pp) {
+		forEachInstr(fn, false, func(f *ssa.Function, in ssa.Instruction) {
+			ci, ok := in.(ssa.CallInstruction)
+			if !ok || methodName(ci.Common()) != "FinalizeRequestHeaders" {
+				return
+			}
+			n++
+			key := ord.next(f, "request-finalised-once")
+			top := f
+			for top.Parent() != nil {
+				top = top.Parent()
+			}
+			onRetry := reach[f] || reach[top]
+			looped := inLoop(in.Block())
+			c.Check("C17.R9", key, in.Pos(), !onRetry && !looped, "applied on the first attempt's path only ("+top.Name()+" is not reachable from doRetry)", fmt.Sprintf("FinalizeRequestHeaders is called in %s, which %s: on a retried request the route's header additions are appended a second time and the path rewrite is applied to the already rewritten path", top.Name(), map[bool]string{true: "is reachable from doRetry (it runs once per upstream attempt)", false: "calls it inside a loop"}[onRetry]))
+		})
+	}
+	if n < 1 {
+		c.Unresolved("C17.R9", "a call of RouteRule.FinalizeRequestHeaders in pkg/proxy")
+	}
+}
